@@ -92,7 +92,7 @@ func xorAll(b []byte, m byte) []byte {
 func confirm(x *mon.Ctx) {
 	selfTest(x)
 	S := structured()
-	for i := 0; i < x.Scale(96, 800); i++ {
+	for i := 0; i < x.Scale(64, 800); i++ {
 		c := x.Begin("confirm session #%d (scalars and identities from the case PRNG)", i)
 		if c == nil {
 			continue
